@@ -101,3 +101,5 @@ for _op in c17.OPS:
                replay=_replay(_op))(_ob_inv(_op))
 
 from . import lockdep   # noqa: E402,F401  (locked deposits: LP goes to the farm manager, reserves stay backed)
+
+from . import stable3   # noqa: E402,F401  (three-asset stableswap accounting obligations registered for this property)
